@@ -183,6 +183,7 @@ class MdSim(object):
                 conf = Config()
                 conf.load({"entityid": "https://md.sim.example/me", "xmlsec_binary": seams.FAKE_BIN,
                            "key_file": key_file(0), "cert_file": cert_file(0)}, metadata_construction=True)
+                self.base_conf = conf
                 self.store = MetadataStore(ac_factory(), conf)
                 for i, ev in enumerate(self.sc["events"]):
                     if "dt" in ev:
@@ -281,7 +282,22 @@ class MdSim(object):
                     kw["cert"] = cert_file(cc)
                 if doc["wrapper"] == "entity":
                     kw["node_name"] = "%s:EntityDescriptor" % MD
-                if ev.get("via_imp") and doc["wrapper"] != "entity":
+                if ev.get("via_config") and doc["wrapper"] != "entity":
+                    # the process restarts and builds its store from its configuration file (old-style
+                    # `metadata: {remote: [{url, cert}]}`), with or without the TLS option spelled out: from now on
+                    # the store holds this one source
+                    self.store = MetadataStore(ac_factory(), self.base_conf)
+                    self.model = {}
+                    cnf = {"entityid": "https://md.sim.example/me", "xmlsec_binary": seams.FAKE_BIN,
+                           "key_file": key_file(0), "cert_file": cert_file(0),
+                           "metadata": {"remote": [dict(kw)]}}
+                    if ev.get("tls_opt") is not None:
+                        cnf["disable_ssl_certificate_validation"] = ev["tls_opt"]
+                    c_ = Config()
+                    c_.load(cnf)
+                    self.store = c_.metadata
+                    self.count("load.via-config-restart")
+                elif ev.get("via_imp") and doc["wrapper"] != "entity":
                     spec = (url, kw["cert"]) if "cert" in kw else (url,)
                     self.store.imp([{"class": "saml2_tophat.mdstore.MetaDataExtern", "metadata": [spec]}])
                     self.count("load.via-imp")
@@ -324,8 +340,11 @@ class MdSim(object):
         if verifying and not any(v["op"] == "verify" and v["genuine_ok"] and v.get("key") == "k%d" % ev["cert_conf"]
                                  for v in self.world.tool.invocations[inv0:]):
             # whatever the reason (no verifier at hand, a skipped branch): a signed document from a source that
-            # is configured with a certificate contributes nothing unless the tool really vouched for it
-            must_fail.append("signature-never-verified")
+            # is configured with a certificate contributes nothing unless the tool really vouched for it.
+            # (A load that *failed* without getting as far as the verification is judged like any failed load -
+            # except for file sources, which this code base cannot verify at all: DESIGN.md section 15.)
+            if rec["loaded"] or typ == "file":
+                must_fail.append("signature-never-verified")
         clean = not fault and not tf
         corrupted = fault in ("garbled", "truncated")
         # (when the bytes were corrupted the corruption may have hit the validUntil attribute: expiry is not
@@ -796,6 +815,11 @@ def generate(seed, prop, tier):
             ev = {"k": "load", "src": sid, "type": typ, "doc": doc, "dt": r.pick([0, 1, 1.5, 30]), "sub": r.getrandbits(32)}
             if typ in ("file", "remote") and r.chance(0.3):
                 ev["via_imp"] = True
+            elif typ == "remote" and wrapper == "entities" and r.chance(0.3):
+                ev["via_config"] = True
+                ev["tls_opt"] = r.pick([None, None, False, True])
+                if r.chance(0.4):
+                    doc["valid_until"] = r.pick([-86400, -1, -1])      # a feed that has expired as a whole
             if typ == "remote" and wrapper == "entities" and r.chance(0.6):
                 ev["sign"] = r.randrange(12)
                 ev["cert_conf"] = r.pick([ev["sign"], ev["sign"], (ev["sign"] + 1) % 12, None])
